@@ -1,6 +1,7 @@
 """C09 check configuration (see lib/props.py for the field meanings)."""
 
 PROP = {
+    "thorough_scale": 4,
     "pkg": "internal/stats",
     "files": ["stats/c09_seq_test.go", "stats/c09_conc_test.go"],
     "level": "exploration",
